@@ -125,6 +125,50 @@ class ConstIndex(object):
             # a 64-bit constant may be assembled from two 32-bit halves
         return None
 
+    def tables_like(self, seq, width, reps=(1, 2, 4, 8, 16), threshold=0.75):
+        """Candidate tables: places in any section where at least `threshold` of the words of the lane-replicated
+        sequence (each entry repeated r times) match.  Returns [(section, byte offset, r, [(entry index, lane, found value)...])]."""
+        out = []
+        n = len(seq)
+        for (nm, w, words, isx) in self.tables:
+            if w != width:
+                continue
+            pos = {}
+            for k, v in enumerate(words):
+                pos.setdefault(v, []).append(k)
+            seen = set()
+            for r in reps:
+                need = n * r
+                if len(words) < need:
+                    continue
+                # anchor on the first lane of a few different entries so that one corrupted entry does not hide the table
+                for a in (0, 1, 2, n // 2, n - 1):
+                    for k in pos.get(seq[a], ()):
+                        start = k - a * r
+                        if start < 0 or start + need > len(words) or (start, r) in seen:
+                            continue
+                        seen.add((start, r))
+                        bad = []
+                        ok = 0
+                        for j in range(n):
+                            for t in range(r):
+                                got = words[start + j * r + t]
+                                if got == seq[j]:
+                                    ok += 1
+                                else:
+                                    bad.append((j, t, got))
+                        if ok >= threshold * need and (r == 1 or ok > need // r):
+                            out.append((nm, start * w, r, bad))
+        # overlapping interpretations (a lane-replicated table also matches itself shifted by a lane): keep the best
+        out.sort(key=lambda t: (len(t[3]), -t[2], t[1]))
+        kept = []
+        for (nm, off, r, bad) in out:
+            lo, hi = off, off + n * r * width
+            if any(k[0] == nm and lo < k[1] + n * k[2] * width and k[1] < hi for k in kept):
+                continue
+            kept.append((nm, off, r, bad))
+        return sorted(kept)
+
     def ordered(self, seq, width):
         """True if some data section, with consecutive repeats collapsed, contains seq contiguously; None if no
         data section holds all of seq's values at all (constants are immediates)."""
